@@ -23,24 +23,40 @@ theorem interact_eq_go (cfg : Cfg) (ph : Phase) (s : Srv) (cs : List Choice) :
 
 -- the reference server in the situations the client creates -------------------------------------
 
-/-- the two shapes of the response that carries the (first block of the) representation -/
-def FirstShape (rep : Bytes) (r : Resp) : Prop :=
+/-- the two shapes of the response that carries the (first block of the) representation; `q` is
+the Block2 option of the request it answers (the application's size hint, if any): the block is
+not larger than the request asked for -/
+def FirstShape (rep : Bytes) (q : Option BlockOpt) (r : Resp) : Prop :=
   (r.block2 = none ∧ r.payload = rep) ∨
-  (∃ z, z ≤ 6 ∧ r.block2 = some { num := 0, more := decide (blockSize z < rep.length), szx := z } ∧
+  (∃ z, z ≤ 6 ∧ (∀ b, q = some b → z ≤ b.szx) ∧
+        r.block2 = some { num := 0, more := decide (blockSize z < rep.length), szx := z } ∧
         r.payload = rep.take (blockSize z))
 
-theorem respond_spec (s : Srv) (body : Bytes) (ack : Option BlockOpt) (c : Choice) :
-    (s.respond body ack none c).1 = { s with buf := [], recorded := some body } ∧
-    (s.respond body ack none c).2.code = s.code ∧
-    (s.respond body ack none c).2.block1 = ack ∧
-    (s.respond body ack none c).2.etag = s.etag ∧
-    FirstShape s.rep (s.respond body ack none c).2 := by
+theorem respondSzx_le (q : Option BlockOpt) (c : Choice) :
+    respondSzx q c ≤ 6 ∧ ∀ b, q = some b → respondSzx q c ≤ b.szx := by
+  unfold respondSzx
+  cases q with
+  | none => exact ⟨Nat.min_le_right _ _, fun b hb => by cases hb⟩
+  | some b0 =>
+    refine ⟨Nat.le_trans (Nat.min_le_right _ _) (Nat.min_le_right _ _), ?_⟩
+    intro b hb
+    cases hb
+    exact Nat.le_trans (Nat.min_le_right _ _) (Nat.min_le_left _ _)
+
+theorem respond_spec (s : Srv) (body : Bytes) (ack : Option BlockOpt) (q : Option BlockOpt)
+    (c : Choice) :
+    (s.respond body ack q c).1 = { s with buf := [], recorded := some body } ∧
+    (s.respond body ack q c).2.code = s.code ∧
+    (s.respond body ack q c).2.block1 = ack ∧
+    (s.respond body ack q c).2.etag = s.etag ∧
+    FirstShape s.rep q (s.respond body ack q c).2 := by
+  obtain ⟨hz6, hzq⟩ := respondSzx_le q c
   unfold Srv.respond
   simp only
-  by_cases hc : s.rep.length > blockSize (min c.szx 6) ∨ c.explicitB2 = true
+  by_cases hc : s.rep.length > blockSize (respondSzx q c) ∨ c.explicitB2 = true
   · simp only [hc, ↓reduceIte, sliceResp, Nat.zero_add, List.drop_zero, true_and]
     right
-    exact ⟨min c.szx 6, Nat.min_le_right _ _, by simp [Nat.zero_div], rfl⟩
+    exact ⟨respondSzx q c, hz6, hzq, by simp [Nat.zero_div], rfl⟩
   · simp only [hc, ↓reduceIte, true_and]
     left
     exact ⟨rfl, rfl⟩
@@ -87,17 +103,24 @@ def mu (cfg : Cfg) (rep : Bytes) : Phase → Nat
 
 theorem J_complete (cfg : Cfg) (cur : Req) (s : Srv) (r : Resp)
     (hrec : s.recorded = some cfg.payload) (hcode : r.code = s.code) (hetag : r.etag = s.etag)
-    (hshape : FirstShape s.rep r) :
+    (hshape : FirstShape s.rep cur.block2 r) :
     J cfg s.rep s.etag s.code (completeBlock2 cfg cur r) s ∧
     mu cfg s.rep (completeBlock2 cfg cur r) ≤ s.rep.length := by
-  rcases hshape with ⟨hb, hp⟩ | ⟨z, hz, hb, hp⟩
+  rcases hshape with ⟨hb, hp⟩ | ⟨z, hz, hzq, hb, hp⟩
   · rw [completeBlock2_none hb]
     refine ⟨⟨rfl, rfl, rfl, hrec, ?_⟩, Nat.zero_le _⟩
     simp [bodyOf, hcode, hetag, hp]
-  · by_cases hm : blockSize z < s.rep.length
+  · -- the block is not larger than the request asked for
+    have hnog : ∀ m, ¬ szxGrows cur ⟨0, m, z⟩ = true := by
+      intro m
+      unfold szxGrows
+      cases hq : cur.block2 with
+      | none => simp
+      | some q => have := hzq q hq; simp only [decide_eq_true_eq]; omega
+    by_cases hm : blockSize z < s.rep.length
     · -- more blocks follow
       simp only [hm, decide_true] at hb
-      rw [completeBlock2_some hb, if_neg (by simp [BlockOpt.start])]
+      rw [completeBlock2_some hb, if_neg (by simp [BlockOpt.start]), if_neg (hnog true)]
       have hlen : r.payload.length = blockSize z := by
         rw [hp, List.length_take]; omega
       have hsz : BlockOpt.size ⟨0, true, z⟩ = blockSize z := BlockOpt.size_eq (b := ⟨0, true, z⟩) hz
@@ -114,18 +137,28 @@ theorem J_complete (cfg : Cfg) (cur : Req) (s : Srv) (r : Resp)
       simp only [mu]
       omega
     · simp only [hm, decide_false] at hb
-      rw [completeBlock2_some hb, if_neg (by simp [BlockOpt.start])]
+      rw [completeBlock2_some hb, if_neg (by simp [BlockOpt.start]), if_neg (hnog false)]
       simp only [Bool.not_false, ↓reduceIte]
       refine ⟨⟨rfl, rfl, rfl, hrec, ?_⟩, Nat.zero_le _⟩
       simp only [bodyOf, hcode, hetag, hp]
       rw [List.take_of_length_le (by omega)]
 
-theorem respond_const (s : Srv) (body : Bytes) (ack : Option BlockOpt) (c : Choice) :
-    (s.respond body ack none c).1.rep = s.rep ∧ (s.respond body ack none c).1.etag = s.etag ∧
-    (s.respond body ack none c).1.code = s.code ∧
-    (s.respond body ack none c).1.recorded = some body := by
-  rw [(respond_spec s body ack c).1]
+theorem respond_const (s : Srv) (body : Bytes) (ack : Option BlockOpt) (q : Option BlockOpt)
+    (c : Choice) :
+    (s.respond body ack q c).1.rep = s.rep ∧ (s.respond body ack q c).1.etag = s.etag ∧
+    (s.respond body ack q c).1.code = s.code ∧
+    (s.respond body ack q c).1.recorded = some body := by
+  rw [(respond_spec s body ack q c).1]
   exact ⟨rfl, rfl, rfl, rfl⟩
+
+/-- a request of the Block1 phase (no Block2 option, or the size hint with block number 0) is not
+a continuation of a download -/
+theorem handle_of_hint (cfg : Cfg) (s : Srv) {req : Req} (c : Choice) (h : req.block2 = hintOpt cfg) :
+    s.handle req c = s.body req c := by
+  unfold Srv.handle
+  rw [h]
+  unfold hintOpt
+  cases cfg.hint2 <;> simp
 
 /-- One exchange preserves the invariant and makes progress. -/
 theorem J.exchange {cfg : Cfg} {rep : Bytes} {etag : Option Bytes} {code : Nat} {ph : Phase} {s : Srv}
@@ -145,11 +178,11 @@ theorem J.exchange {cfg : Cfg} {rep : Bytes} {etag : Option Bytes} {code : Nat} 
     · -- a block of a fragmented transfer
       simp only [hf, ↓reduceIte, Option.some.injEq] at hcur
       have hin := hinv.inside hf
-      have hhandle : s.handle cur0 c = s.body cur0 c := by rw [← hcur]; simp [Srv.handle]
+      have hb2 : cur0.block2 = hintOpt cfg := by rw [← hcur]
+      have hhandle : s.handle cur0 c = s.body cur0 c := handle_of_hint cfg s c hb2
       have hb1 : cur0.block1 = some ⟨st.cursor,
           decide (st.cursor * blockSize st.szx + blockSize st.szx < cfg.payload.length), st.szx⟩ := by
         rw [← hcur]
-      have hb2 : cur0.block2 = none := by rw [← hcur]
       have hpay : cur0.payload = (cfg.payload.drop (st.cursor * blockSize st.szx)).take (blockSize st.szx) := by
         rw [← hcur]
       have hbuflen : (if st.cursor = 0 then ([] : Bytes) else s.buf).length = st.cursor * blockSize st.szx := by
@@ -195,21 +228,21 @@ theorem J.exchange {cfg : Cfg} {rep : Bytes} {etag : Option Bytes} {code : Nat} 
           have := blockSize_pos st.szx
           omega
       · -- the last block: the body is complete
-        simp only [hm, decide_false, Bool.false_eq_true, ↓reduceIte, hb2]
+        simp only [hm, decide_false, Bool.false_eq_true, ↓reduceIte]
         obtain ⟨hs1, hs2, hs3, hs4, hs5⟩ := respond_spec s
           ((if st.cursor = 0 then ([] : Bytes) else s.buf) ++ cur0.payload)
-          (some ⟨st.cursor, false, min c.szx st.szx⟩) c
+          (some ⟨st.cursor, false, min c.szx st.szx⟩) cur0.block2 c
         obtain ⟨hk1, hk2, hk3, hk4⟩ := respond_const s
           ((if st.cursor = 0 then ([] : Bytes) else s.buf) ++ cur0.payload)
-          (some ⟨st.cursor, false, min c.szx st.szx⟩) c
+          (some ⟨st.cursor, false, min c.szx st.szx⟩) cur0.block2 c
         rw [step_b1_some hs3]
         have hcc : ¬ ((s.respond ((if st.cursor = 0 then ([] : Bytes) else s.buf) ++ cur0.payload)
-            (some ⟨st.cursor, false, min c.szx st.szx⟩) none c).2.code
+            (some ⟨st.cursor, false, min c.szx st.szx⟩) cur0.block2 c).2.code
               = codeContinue) := by rw [hs2]; exact hcode
         simp only [hsent, hm, decide_false, ne_eq, not_true_eq_false, ↓reduceIte, Bool.not_false,
           Bool.false_or, beq_iff_eq, hcc]
         have hrec : (s.respond ((if st.cursor = 0 then ([] : Bytes) else s.buf) ++ cur0.payload)
-            (some ⟨st.cursor, false, min c.szx st.szx⟩) none c).1.recorded
+            (some ⟨st.cursor, false, min c.szx st.szx⟩) cur0.block2 c).1.recorded
               = some cfg.payload := by
           rw [hk4, hnewbuf, List.take_of_length_le (by omega)]
         have := J_complete cfg cur0 _ _ hrec (by rw [hs2, hk3]) (by rw [hs4, hk2])
@@ -223,12 +256,13 @@ theorem J.exchange {cfg : Cfg} {rep : Bytes} {etag : Option Bytes} {code : Nat} 
         omega
     · -- the whole payload in one request
       simp only [hf, ↓reduceIte, Option.some.injEq] at hcur
-      have hhandle : s.handle cur0 c = s.respond cfg.payload none none c := by
-        rw [← hcur]; simp [Srv.handle, Srv.body]
+      have hb2 : cur0.block2 = hintOpt cfg := by rw [← hcur]
+      have hhandle : s.handle cur0 c = s.respond cfg.payload none cur0.block2 c := by
+        rw [handle_of_hint cfg s c hb2, ← hcur]; simp [Srv.body]
       rw [hhandle]
-      obtain ⟨hs1, hs2, hs3, hs4, hs5⟩ := respond_spec s cfg.payload none c
-      obtain ⟨hk1, hk2, hk3, hk4⟩ := respond_const s cfg.payload none c
-      rw [step_b1_none_final hs3 (by rw [hs2]; exact hcode)]
+      obtain ⟨hs1, hs2, hs3, hs4, hs5⟩ := respond_spec s cfg.payload none cur0.block2 c
+      obtain ⟨hk1, hk2, hk3, hk4⟩ := respond_const s cfg.payload none cur0.block2 c
+      rw [step_b1_none_final hs3 (by rw [hs2]; exact hcode) (by rw [← hcur]; rfl)]
       have := J_complete cfg cur0 _ _ hk4 (by rw [hs2, hk3]) (by rw [hs4, hk2])
         (by rw [hk1]; exact hs5)
       rw [hk1, hk2, hk3] at this
